@@ -13,7 +13,8 @@ Definition allowed_escapes : list string :=
   ["(*regexp.Regexp).FindAllSubmatch"; "(*regexp.Regexp).FindAllStringSubmatch"; "(*regexp.Regexp).String"].
 Theorem C17_jwt_no_shared_writes :
   forallb (fun g => match g_writes g with [] => true | _ => false end) globals = true /\
-  forallb (fun g => forallb (fun e => existsb (fun a => a =? e) allowed_escapes) (g_escapes g)) globals = true.
+  forallb (fun g => forallb (fun e => existsb (fun a => a =? e) allowed_escapes) (g_escapes g)) globals = true /\
+  foreign_global_writes = [].     (* nor is a package variable of ANOTHER package (net/http, os, ...) stored to or through *)
 Proof. exact jwt_no_shared_writes. Qed.
 Theorem C17_readonly_queries_pure : forallb (fun q => negb (snd q)) query_stores = true.
 Proof. exact readonly_queries_pure. Qed.
